@@ -428,8 +428,10 @@ fn submit_probe(n: &Node, b: &BlockView) -> Obs {
     let mut lost = false;
     if attached {
         if n.shared.snapshot().is_main_chain(&before.tip) {
-            n.truncate_to(&before.tip).expect("truncate");
-            assert!(sig(n) == before, "truncate did not restore the context");
+            // (under a broken pipeline the truncation itself may fail: that is an observation, not a harness error)
+            if n.truncate_to(&before.tip).is_err() || sig(n) != before {
+                lost = true;
+            }
         } else {
             lost = true; // a side branch became canonical: the context cannot be restored
         }
@@ -515,6 +517,10 @@ fn run_ctx(ci: usize, ctx: &ACtx, tx_cycles: u64, limit: usize, seed: u64) {
                     let o = submit_probe(&n, &b);
                     emit(json!({"probe": {"ctx": ci, "m": m, "i": pi, "fam": pr.fam, "lab": pr.lab, "expect": pr.verdict, "attached": o.attached, "ok": o.ok,
                         "err": o.err, "unchanged": o.unchanged, "status_invalid": o.status_invalid, "branch": false}}));
+                    if o.lost {
+                        emit(json!({"context_lost": {"ctx": ci, "after": pr.fam}}));
+                        return;
+                    }
                 }
             }
         }
